@@ -140,6 +140,19 @@ def doc_types(doc):
     return sorted(out)
 
 
+def doc_defs(doc):
+    """the attribute values of every top-level component (id, type, simple attributes): two documents that hold a component with
+    the same id and class but another definition differ here"""
+    out = []
+    for name, val in inspect.getmembers(doc):
+        if isinstance(val, list) and not name.endswith("_") and name not in ("includes", "networks"):
+            for e in val:
+                at = sorted("%s=%s" % (k, v) for k, v in vars(e).items()
+                            if isinstance(v, (str, int, float)) and not k.endswith("_") and k != "id")
+                out.append("%s:%s:%s{%s}" % (name, getattr(e, "id", "?"), type(e).__name__, ",".join(at)))
+    return sorted(out)
+
+
 def doc_items(doc):
     items, incs = [], []
     for name, val in inspect.getmembers(doc):
@@ -415,10 +428,11 @@ def run_call(d, c):
         res["items"], res["includes"] = doc_items(doc)
         res["meta"] = [s(getattr(doc, "id", None)), s(getattr(doc, "notes", None))]
         res["types"] = doc_types(doc)
+        res["defs"] = doc_defs(doc)
         res["nets"] = net_dump(doc)
         if handler_doc is not None:
             hi, _ = doc_items(handler_doc)
-            res["handler"] = {"items": hi, "nets": net_dump(handler_doc)}
+            res["handler"] = {"items": hi, "nets": net_dump(handler_doc), "defs": doc_defs(handler_doc)}
     except BaseException as e:  # SystemExit from read_neuroml2_file included
         return {"ok": False, "err": type(e).__name__, "msg": str(e)[:200]}
     if c.get("use"):
@@ -430,8 +444,70 @@ def run_call(d, c):
 
 
 # ------------------------------------------------------------------------------- builder schedules
-def apply_op(nb, op):
+class ObjPool(object):
+    """the objects a caller hands to handlers as component_obj / synapse_obj / pre_synapse_obj / input_comp_obj.  One pool per
+    job: in a schedule BOTH builders get the identical Python objects, in a solo run (fresh fork) they are freshly built."""
+
+    def __init__(self):
+        self.objs = {}
+        self.writes = []
+
+    def get(self, ref):
+        if ref not in self.objs:
+            kind, cid = ref.split(":", 1)
+            self.objs[ref] = neuroml.SilentSynapse(id=cid) if kind == "silent" else make_component(kind, cid)
+        return self.objs[ref]
+
+
+def _val(v):
+    if v is None or isinstance(v, (str, int, float, bool)):
+        return repr(v)
+    if isinstance(v, (list, tuple, dict, set)):
+        return "%s(len %d)" % (type(v).__name__, len(v))
+    return "%s@%x" % (type(v).__name__, id(v))
+
+
+def obj_state(o):
+    return {k: _val(v) for k, v in vars(o).items()}
+
+
+def call_with_objs(pool, who, handler, fn, objs):
+    """run one handler call; every object passed as an argument must have the same vars() afterwards"""
+    before = {p: obj_state(o) for p, o in objs.items()}
+    try:
+        fn()
+    finally:
+        for p, o in objs.items():
+            after = obj_state(o)
+            for k in sorted(set(before[p]) | set(after)):
+                if before[p].get(k) != after.get(k):
+                    pool.writes.append({"builder": who, "handler": handler, "param": p, "attr": k,
+                                        "change": "added" if k not in before[p] else "removed" if k not in after else "changed",
+                                        "before": before[p].get(k), "after": after.get(k)})
+
+
+def apply_op(nb, op, pool=None, who=None):
     k = op[0]
+    refs = op[-1] if isinstance(op[-1], dict) else {}
+    if refs:
+        op = op[:-1]
+        if pool is None:
+            pool = ObjPool()
+        objs = {p: pool.get(r) for p, r in refs.items()}
+        if k == "pop":
+            call_with_objs(pool, who, "handle_population",
+                           lambda: nb.handle_population(op[1], op[2], op[3], component_obj=objs.get("component_obj")), objs)
+        elif k == "proj":
+            call_with_objs(pool, who, "handle_projection",
+                           lambda: nb.handle_projection(op[1], op[2], op[3], op[4], hasWeights=op[6], hasDelays=op[7], type=op[5],
+                                                        synapse_obj=objs.get("synapse_obj"),
+                                                        pre_synapse_obj=objs.get("pre_synapse_obj")), objs)
+        elif k == "il":
+            call_with_objs(pool, who, "handle_input_list",
+                           lambda: nb.handle_input_list(op[1], op[2], op[3], 1, input_comp_obj=objs.get("input_comp_obj")), objs)
+        else:
+            raise ValueError("object arguments on op " + k)
+        return
     if k == "doc":
         nb.handle_document_start(op[1], None)
     elif k == "net":
@@ -511,28 +587,42 @@ def dump_builder(nb):
     return out
 
 
+def builder_components(nb):
+    """the top-level components of the builder's document, with their definitions"""
+    doc = getattr(nb, "nml_doc", None)
+    return [] if doc is None else doc_defs(doc)
+
+
 def run_sched(sched):
     b = {"A": NetworkBuilder(), "B": NetworkBuilder()}
     raised = {"A": [], "B": []}
+    pool = ObjPool()          # ONE pool: the same objects go to both builders
     for who, op in sched:
         try:
-            apply_op(b[who], op)
+            apply_op(b[who], op, pool, who)
             raised[who].append(False)
         except Exception:
             raised[who].append(True)
-    return {w: {"dump": dump_builder(b[w]), "raised": raised[w]} for w in ("A", "B")}
+    out = {w: {"dump": dump_builder(b[w]), "raised": raised[w], "components": builder_components(b[w])} for w in ("A", "B")}
+    if pool.writes:
+        out["argument_writes"] = pool.writes
+    return out
 
 
 def run_solo(ops):
     nb = NetworkBuilder()
     raised = []
+    pool = ObjPool()
     for op in ops:
         try:
-            apply_op(nb, op)
+            apply_op(nb, op, pool, "solo")
             raised.append(False)
         except Exception:
             raised.append(True)
-    return {"dump": dump_builder(nb), "raised": raised}
+    out = {"dump": dump_builder(nb), "raised": raised, "components": builder_components(nb)}
+    if pool.writes:
+        out["argument_writes"] = pool.writes
+    return out
 
 
 # -------------------------------------------------------------- parser-driven streams (recorded, replayed)
